@@ -26,6 +26,10 @@ type Value interface{}
 
 type F64 float64
 
+// FSym is a float whose value the executor does not track (result of arithmetic on a symbolic
+// integer converted to float). Comparisons on it yield unconstrained booleans.
+type FSym struct{}
+
 type Struct []Value
 type Array []Value
 type Tuple []Value
